@@ -78,6 +78,20 @@ def gen_method(rng, name, generic=False):
     return m
 
 
+def gen_variadic_method(rng, name):
+    """A variadic method with one result and a first parameter that can carry any number (used by C05)."""
+    for _ in range(200):
+        m = gen_method(rng, name)
+        if m["variadic"] and len(m["results"]) == 1 and len(m["params"]) >= 2 and m["params"][0]["type"] in ("string", "int", "int64") \
+                and not m["results"][0]["type"].startswith("func"):
+            return m
+    m = {"name": name, "params": [{"name": "format", "type": "string", "max": 9, "variadic": False},
+                                   {"name": "args", "type": "interface{}", "max": 9, "variadic": True}],
+         "results": [{"name": None, "type": "error", "max": 9}], "variadic": True}
+    m["resolved"] = resolved_names(m)
+    return m
+
+
 def base_name(p):
     if p["name"] not in (None, "_"):
         return p["name"]
